@@ -1,7 +1,7 @@
 (* C19: ordering, sign, remainder, sums and identities are coherent with the value. *)
 From Coq Require Import Reals ZArith List Bool Lra.
-From RL Require Import Base.Num Base.Str Base.NumR Base.Outcome Model.Dual
-  Proofs.NumRP Proofs.DualP Proofs.Dual2P Proofs.LayoutP Proofs.AD1.
+From RL Require Import Base.Num Base.Str Base.NumR Base.Outcome Model.Dual Model.Number
+  Proofs.NumRP Proofs.DualP Proofs.Dual2P Proofs.LayoutP Proofs.AD1 Proofs.NumberP.
 Import ListNotations.
 Open Scope R_scope.
 
@@ -78,3 +78,102 @@ Proof.
 Qed.
 Lemma dis_zero_spec (a : dualR) : wf a -> (dis_zero a = true <-> a ≈ dzero).
 Proof. intros W. unfold dis_zero. apply deqb_spec; auto. apply wf_dual_new. discriminate. Qed.
+
+(* abs_sub ("positive difference"): the variable-free zero when the value does not exceed the other's,
+   otherwise the difference - which refines a - b by name (dsub_spec) *)
+Lemma dabs_sub_le p (a b : dualR) : re a <= re b -> dabs_sub p a b = dzero.
+Proof.
+  intros L. unfold dabs_sub, dleb. cbn [nleb NumR]. unfold Rleb. destruct (Rle_dec (re a) (re b)); [reflexivity|contradiction].
+Qed.
+Lemma dabs_sub_gt p (a b : dualR) : re b < re a -> dabs_sub p a b = dsub p a b.
+Proof.
+  intros L. unfold dabs_sub, dleb. cbn [nleb NumR]. unfold Rleb. destruct (Rle_dec (re a) (re b)); [lra|reflexivity].
+Qed.
+Lemma d2abs_sub_le p (a b : dual2R) : re2 a <= re2 b -> d2abs_sub p a b = d2zero.
+Proof.
+  intros L. unfold d2abs_sub, d2leb. cbn [nleb NumR]. unfold Rleb. destruct (Rle_dec (re2 a) (re2 b)); [reflexivity|contradiction].
+Qed.
+Lemma d2abs_sub_gt p (a b : dual2R) : re2 b < re2 a -> d2abs_sub p a b = d2sub p a b.
+Proof.
+  intros L. unfold d2abs_sub, d2leb. cbn [nleb NumR]. unfold Rleb. destruct (Rle_dec (re2 a) (re2 b)); [lra|reflexivity].
+Qed.
+Lemma wf2_d2zero_ : wf2 (@d2zero R NumR).
+Proof. split; [constructor|]. split; [reflexivity|]. apply (square_mzeros 0). Qed.
+Lemma coef1_d2zero v : coef1 (@d2zero R NumR) v = 0.
+Proof. apply coef1_notin. cbn. tauto. Qed.
+Lemma coef2_d2zero u v : coef2 (@d2zero R NumR) u v = 0.
+Proof. apply coef2_notin_l. cbn. tauto. Qed.
+
+Lemma dabs_sub_spec p (a b : dualR) : wf a -> wf b -> (p = true -> vs a = vs b) ->
+  wf (dabs_sub p a b) /\ re (dabs_sub p a b) = Rmax 0 (re a - re b) /\
+  (re a <= re b -> dabs_sub p a b = dzero /\ forall v, coef (dabs_sub p a b) v = 0) /\
+  (re b < re a -> dabs_sub p a b = dsub p a b /\ (forall v, coef (dabs_sub p a b) v = coef a v - coef b v) /\
+                  in_union (dabs_sub p a b) a b).
+Proof.
+  intros WA WB HP. destruct (dsub_spec p a b WA WB HP) as (W & R & C & U).
+  destruct (Rle_or_lt (re a) (re b)) as [L|L].
+  - rewrite (dabs_sub_le p a b L). split; [apply wf_dual_new|]. split; [cbn; rewrite Rmax_left; lra|].
+    split; [intros _; split; [reflexivity|intros v; apply coef_const]|intros G; lra].
+  - rewrite (dabs_sub_gt p a b L). split; [exact W|]. split; [rewrite R, Rmax_right; lra|].
+    split; [intros G; lra|intros _; auto].
+Qed.
+Lemma d2abs_sub_spec p (a b : dual2R) : wf2 a -> wf2 b -> (p = true -> vs2 a = vs2 b) ->
+  wf2 (d2abs_sub p a b) /\ re2 (d2abs_sub p a b) = Rmax 0 (re2 a - re2 b) /\
+  (re2 a <= re2 b -> d2abs_sub p a b = d2zero /\ (forall v, coef1 (d2abs_sub p a b) v = 0) /\
+                     forall u v, coef2 (d2abs_sub p a b) u v = 0) /\
+  (re2 b < re2 a -> d2abs_sub p a b = d2sub p a b /\
+                    (forall v, coef1 (d2abs_sub p a b) v = coef1 a v - coef1 b v) /\
+                    (forall u v, coef2 (d2abs_sub p a b) u v = coef2 a u v - coef2 b u v) /\
+                    in_union2 (d2abs_sub p a b) a b).
+Proof.
+  intros WA WB HP. destruct (d2sub_spec p a b WA WB HP) as (W & R & C & H & U).
+  destruct (Rle_or_lt (re2 a) (re2 b)) as [L|L].
+  - rewrite (d2abs_sub_le p a b L). split; [apply wf2_d2zero_|]. split; [cbn; rewrite Rmax_left; lra|].
+    split; [intros _; split; [reflexivity|split; [apply coef1_d2zero|apply coef2_d2zero]]|intros G; lra].
+  - rewrite (d2abs_sub_gt p a b L). split; [exact W|]. split; [rewrite R, Rmax_right; lra|].
+    split; [intros G; lra|intros _; auto].
+Qed.
+
+(* the value of a difference needs no well-formedness: alignment never touches the real part *)
+Lemma re_dsub p (a b : dualR) : re (dsub p a b) = re a - re b.
+Proof. unfold dsub, align. destruct (vars_cmp p (vs a) (vs b)); reflexivity. Qed.
+Lemma re_d2sub p (a b : dual2R) : re2 (d2sub p a b) = re2 a - re2 b.
+Proof. unfold d2sub, align2. destruct (vars_cmp p (vs2 a) (vs2 b)); reflexivity. Qed.
+Lemma re_dabs_sub p (a b : dualR) : re (dabs_sub p a b) = Rmax 0 (re a - re b).
+Proof.
+  destruct (Rle_or_lt (re a) (re b)) as [L|L].
+  - rewrite (dabs_sub_le p a b L). cbn. rewrite Rmax_left; lra.
+  - rewrite (dabs_sub_gt p a b L), re_dsub, Rmax_right; lra.
+Qed.
+Lemma re_d2abs_sub p (a b : dual2R) : re2 (d2abs_sub p a b) = Rmax 0 (re2 a - re2 b).
+Proof.
+  destruct (Rle_or_lt (re2 a) (re2 b)) as [L|L].
+  - rewrite (d2abs_sub_le p a b L). cbn. rewrite Rmax_left; lra.
+  - rewrite (d2abs_sub_gt p a b L), re_d2sub, Rmax_right; lra.
+Qed.
+Lemma fabs_sub_R (x y : R) : fabs_sub x y = Rmax 0 (x - y).
+Proof.
+  unfold fabs_sub. cbn [nleb n0 nsub NumR]. unfold Rleb. destruct (Rle_dec x y); [rewrite Rmax_left|rewrite Rmax_right]; lra.
+Qed.
+
+(* abs_sub on the container: seven computing cells (a float next to a dual number is promoted to the
+   variable-free constant of that kind), the two Dual-with-Dual2 cells refuse; the value is always the
+   positive part of the difference of the values *)
+Lemma num_abs_sub_cells p (f g : R) (d e : dualR) (d2 e2 : dual2R) :
+  num_abs_sub p (NF f) (NF g) = Ok (NF (fabs_sub f g)) /\
+  num_abs_sub p (NF f) (ND e) = Ok (ND (dabs_sub false (cst f) e)) /\
+  num_abs_sub p (ND d) (NF g) = Ok (ND (dabs_sub false d (cst g))) /\
+  num_abs_sub p (ND d) (ND e) = Ok (ND (dabs_sub p d e)) /\
+  num_abs_sub p (NF f) (ND2 e2) = Ok (ND2 (d2abs_sub false (dual2_new f []) e2)) /\
+  num_abs_sub p (ND2 d2) (NF g) = Ok (ND2 (d2abs_sub false d2 (dual2_new g []))) /\
+  num_abs_sub p (ND2 d2) (ND2 e2) = Ok (ND2 (d2abs_sub p d2 e2)) /\
+  num_abs_sub p (ND d) (ND2 e2) = Panic /\ num_abs_sub p (ND2 d2) (ND e) = Panic.
+Proof. repeat split. Qed.
+Lemma num_abs_sub_refuses p (a b : numberR) : num_abs_sub p a b = Panic <-> mixed a b = true.
+Proof. apply num_bin_refuses. Qed.
+Lemma num_abs_sub_value p (a b r : numberR) : num_abs_sub p a b = Ok r ->
+  num_real r = Rmax 0 (num_real a - num_real b).
+Proof.
+  destruct a, b; cbn; intros E; inversion E; cbn [num_real];
+    first [apply fabs_sub_R | apply re_dabs_sub | apply re_d2abs_sub].
+Qed.
